@@ -22,6 +22,35 @@ REPO = Path("/repo")
 
 # (property, name, relative file, old text, new text)
 MUTANTS = [
+    # ---- C10
+    ("C10", "drop_attempt_after_verify", "src/fcp/codegen.py",
+     "        self.verifier.verify(fcp).attempt()\n", "        self.verifier.verify(fcp)\n"),
+    ("C10", "gen_before_verify", "src/fcp/codegen.py",
+     "        self.verifier.verify(fcp).attempt()\n\n        templates = self._get_templates(template_dir)\n        skels = self._get_skels(skel_dir)\n\n        generator.gen(fcp, templates, skels, output_path)\n",
+     "        templates = self._get_templates(template_dir)\n        skels = self._get_skels(skel_dir)\n\n        generator.gen(fcp, templates, skels, output_path)\n        self.verifier.verify(fcp).attempt()\n"),
+    ("C10", "skip_register_checks", "src/fcp/codegen.py",
+     "        generator.register_checks(self.verifier)\n", ""),
+    ("C10", "catch_removed_from_generate", "src/fcp/codegen.py",
+     "    @catch\n    def generate(\n        self,\n        generator_name: str,", "    def generate(\n        self,\n        generator_name: str,"),
+    ("C10", "handle_file_writes_underscore_name", "src/fcp/codegen.py",
+     "    path.parent.mkdir(exist_ok=True)\n    path.write_text(", "    path.parent.mkdir(exist_ok=True)\n    path = path.parent / ('_' + path.name)\n    path.write_text("),
+    ("C10", "backup_of_overwritten_files", "src/fcp/codegen.py",
+     "    path.parent.mkdir(exist_ok=True)\n", "    path.parent.mkdir(exist_ok=True)\n    if path.exists():\n        path.with_name(path.name + '.bak').write_bytes(path.read_bytes())\n"),
+    ("C10", "can_c_clears_dir_when_registering_checks",
+     ["src/fcp/codegen.py", "plugins/fcp_can_c/fcp_can_c/generator.py"],
+     ["        generator.register_checks(self.verifier)\n",
+      "        @register(verifier, \"impl\")  # type: ignore\n        def check_impl_valid_type("],
+     ["        generator.output_path = pathlib.Path(output_path)\n        generator.register_checks(self.verifier)\n",
+      "        _d = str(getattr(self, 'output_path', ''))\n        if _d and os.path.isdir(_d):\n            for _f in os.listdir(_d):\n                if _f.endswith('.h') or _f.endswith('.c'):\n                    os.remove(os.path.join(_d, _f))\n\n        @register(verifier, \"impl\")  # type: ignore\n        def check_impl_valid_type("]),
+    ("C10", "verify_only_first_category_error_lost", "src/fcp/verifier.py",
+     "        for category in self.categories:\n            self.run_checks(category, fcp).attempt()",
+     "        for category in self.categories:\n            r = self.run_checks(category, fcp)\n            if category != 'device':\n                r.attempt()"),
+    ("C10", "makedirs_before_verify", "src/fcp/codegen.py",
+     "        generator.register_checks(self.verifier)\n", "        generator.register_checks(self.verifier)\n        os.makedirs(output_path, exist_ok=True)\n"),
+    ("C10", "trailing_newline_appended", "src/fcp/codegen.py",
+     "    path.write_text(str(result.get(\"contents\")))", "    path.write_text(str(result.get(\"contents\")).rstrip(\"\\n\") + \"\\n\")"),
+    ("C10", "reused_manager_verifies_once", "src/fcp/codegen.py",
+     "        self.verifier.verify(fcp).attempt()\n", "        if not getattr(self, '_verified', False):\n            self.verifier.verify(fcp).attempt()\n            self._verified = True\n"),
     # ---- C11
     ("C11", "revert_eof_catch", "src/fcp/parser.py",
      "    try:\n        fcp_ast = fcp_parser.parse(source)\n    except UnexpectedInput as e:\n        return _lark_error(logger, filename, source, e)",
@@ -128,7 +157,11 @@ MUTANTS = [
 ]
 
 
-def apply(root: Path, rel: str, old: str, new: str) -> None:
+def apply(root: Path, rel, old, new) -> None:
+    if isinstance(rel, list):
+        for r, o, n in zip(rel, old, new):
+            apply(root, r, o, n)
+        return
     p = root / rel
     s = p.read_text()
     if old not in s:
